@@ -410,3 +410,29 @@ pub fn ambient_bad_random_state(v: &[u64]) -> u64 {
     use std::hash::BuildHasher;
     std::hash::RandomState::new().hash_one(v)
 }
+
+// ------------------------------------------------------------------ guards living in the caller of a private helper
+fn helper_act(_s: &St, x: u32) {
+    act(x);
+}
+
+/// the guard is in the (only) caller: accepted for a crate-private helper
+pub fn caller_guard_ok(s: &St, x: u32) {
+    if !s.flag && x < 10 {
+        helper_act(s, x);
+    }
+}
+
+fn helper_act2(_s: &St, x: u32) {
+    act(x);
+}
+
+/// one of two callers does not test the flag: the guard does not hold at every call site
+pub fn caller_guard_bad_a(s: &St, x: u32) {
+    if !s.flag {
+        helper_act2(s, x);
+    }
+}
+pub fn caller_guard_bad_b(s: &St, x: u32) {
+    helper_act2(s, x);
+}
